@@ -569,6 +569,39 @@ def run(prog, rep, tier):
     for s_ in _sub.rules.get("R11.5", {}).get("samples", []):
         rep.examined(R35, str(s_)[:70], sample=s_)
 
+    # ------------------------------------------------------------ R3.6 the lower-bound search uses the ordering only
+    # find_sysline_at_datetime_filter_binary_search must return the FIRST message at or after the bound.
+    # With several messages at exactly the bound, a probe that lands on one of them is not the answer
+    # unless nothing earlier qualifies; a lower-bound search may therefore branch on the window
+    # classification (before / at-or-after) but never on *equality* of a message's datetime with the
+    # bound (an equality short-cut returns whichever tie the probe happened to hit).
+    R36 = rep.rule("R3.6", "the binary search for the first message at or after the bound never tests datetimes for equality")
+    bs = prog.body("s4lib::readers::syslinereader::SyslineReader::find_sysline_at_datetime_filter_binary_search")
+    eqs = []
+    ncmp = 0
+    for c in bs.live_calls():
+        tr = c.callee.get("trait") or ""
+        last = (c.o or c.d).split("::")[-1]
+        if "PartialEq" in tr or "PartialOrd" in tr or last in ("eq", "ne", "lt", "le", "gt", "ge", "cmp", "partial_cmp"):
+            ncmp += 1
+            st_ = str(c.callee.get("self") or "") + " " + " ".join(str(bs.local_ty(op_local(a))) for a in c.args if op_local(a) is not None)
+            if last in ("eq", "ne") and "DateTime" in st_:
+                eqs.append(c)
+    for bb in sorted(bs.live):
+        for s_ in bs.stmts(bb):
+            if s_[0] == "=" and s_[2][0] == "bin" and s_[2][1] in ("Eq", "Ne"):
+                tys = " ".join(str(bs.local_ty(op_local(a))) for a in (s_[2][2], s_[2][3]) if op_local(a) is not None)
+                if "DateTime" in tys:
+                    eqs.append(None)
+    cls = [c for c in bs.live_calls() if c.d.endswith("::dt_after_or_before") or c.d.endswith("::sysline_dt_after_or_before")]
+    rep.examined(R36, bs.path, sample={"comparison_calls": ncmp, "datetime_equality_tests": len(eqs), "window_classifications": len(cls)})
+    if not cls:
+        raise CheckerError("binary search: no window classification call (idiom not recognised)")
+    if eqs:
+        ln = eqs[0].line if eqs[0] is not None else 0
+        rep.violation(R36, bs.path + "|equality", "find_sysline_at_datetime_filter_binary_search tests a message's datetime for equality with the bound (line %d); among several messages at exactly --dt-after "
+                      "the search then returns the one the probe hit, and the ties before it are dropped from the window" % ln)
+
     return rep.finish(
         "Static necessary-condition check: (R3.1) complete decision tables of every window predicate over Option shapes x orderings, "
         "(R3.2) composition of those tables with each reader's handling of the result so that accept <=> A <= t <= B at the text, "
